@@ -50,6 +50,37 @@ pub struct BisyncStateDb {
     sync_pair_hash: String,
 }
 
+/// The `path` column: text for a name that is valid UTF-8 (as it always was), the raw bytes as a
+/// blob for any other name. Stored lossily, such a name never matched its own rows again (a
+/// one-sided edit or deletion looked like a conflict or a creation), and two names with the same
+/// lossy form shared rows.
+fn path_to_sql(path: &Path) -> rusqlite::types::Value {
+    match path.to_str() {
+        Some(text) => rusqlite::types::Value::Text(text.to_string()),
+        #[cfg(unix)]
+        None => {
+            use std::os::unix::ffi::OsStrExt;
+            rusqlite::types::Value::Blob(path.as_os_str().as_bytes().to_vec())
+        }
+        #[cfg(not(unix))]
+        None => rusqlite::types::Value::Text(path.to_string_lossy().into_owned()),
+    }
+}
+
+fn path_from_sql(value: rusqlite::types::ValueRef<'_>) -> rusqlite::Result<PathBuf> {
+    match value {
+        #[cfg(unix)]
+        rusqlite::types::ValueRef::Blob(bytes) => {
+            use std::os::unix::ffi::OsStringExt;
+            Ok(PathBuf::from(std::ffi::OsString::from_vec(bytes.to_vec())))
+        }
+        other => other
+            .as_str()
+            .map(PathBuf::from)
+            .map_err(|e| rusqlite::Error::FromSqlConversionFailure(0, other.data_type(), Box::new(e))),
+    }
+}
+
 /// Nanoseconds since the epoch, negative for a time stamp before 1970 (a file restored from an
 /// old archive): `duration_since(UNIX_EPOCH).unwrap()` made every run on such a tree panic
 fn time_to_ns(time: SystemTime) -> i64 {
@@ -179,7 +210,7 @@ impl BisyncStateDb {
             "INSERT OR REPLACE INTO sync_state (path, side, mtime, size, checksum, last_sync)
              VALUES (?1, ?2, ?3, ?4, ?5, ?6)",
             params![
-                state.path.to_string_lossy(),
+                path_to_sql(&state.path),
                 state.side.as_str(),
                 mtime_ns,
                 state.size as i64,
@@ -200,7 +231,7 @@ impl BisyncStateDb {
         )?;
 
         let result = stmt.query_row(
-            params![path.to_string_lossy(), side.as_str()],
+            params![path_to_sql(path), side.as_str()],
             |row| {
                 let mtime_ns: i64 = row.get(2)?;
                 let size: i64 = row.get(3)?;
@@ -208,7 +239,7 @@ impl BisyncStateDb {
                 let last_sync_ns: i64 = row.get(5)?;
 
                 Ok(SyncState {
-                    path: PathBuf::from(row.get::<_, String>(0)?),
+                    path: path_from_sql(row.get_ref(0)?)?,
                     side: Side::from_str(&row.get::<_, String>(1)?).unwrap(),
                     mtime: time_from_ns(mtime_ns),
                     size: size as u64,
@@ -243,7 +274,7 @@ impl BisyncStateDb {
             let last_sync_ns: i64 = row.get(5)?;
 
             Ok(SyncState {
-                path: PathBuf::from(row.get::<_, String>(0)?),
+                path: path_from_sql(row.get_ref(0)?)?,
                 side: Side::from_str(&row.get::<_, String>(1)?).unwrap(),
                 mtime: time_from_ns(mtime_ns),
                 size: size as u64,
@@ -268,7 +299,7 @@ impl BisyncStateDb {
     pub fn delete(&mut self, path: &Path) -> Result<()> {
         self.conn.execute(
             "DELETE FROM sync_state WHERE path = ?1",
-            params![path.to_string_lossy()],
+            params![path_to_sql(path)],
         )?;
         Ok(())
     }
